@@ -60,6 +60,15 @@ CHECKS = {
          "open/mkdir calls (up-front rejections must issue none).",
          "Trusted: Lean kernel + standard axioms; filesystem semantics as in C19. The enumeration of rejection kinds is the property's list.",
          "Lean 4 proof + exhaustive enumeration of rejection kinds with fs-trace correspondence", "§6 C18"),
+ "C06": ("Lean 4 theorems about the row-placement and selection algebra of partial reads: filling a pre-allocated buffer at running offsets "
+         "is concatenation (so a sliced/picked handle reads exactly its row groups in order), iteration row group by row group "
+         "concatenates to the full read, reported counts equal rows read, head(n) equals the first n rows of the full read for "
+         "every n on a non-empty dataset, and (with the loop index initialised - regenerated from the source) also on a dataset "
+         "with zero row groups. Tied to the code by predicting the row ids of random access programs; the metamorphic oracle "
+         "(partial read == that part of the full read, cell by cell; counts; columns; index choices; file-like, pickle, copy) "
+         "runs on the real code.",
+         "Trusted: Lean kernel + standard axioms. Outside the model: value decoding per row group (C01/C03), pandas index objects.",
+         "Lean 4 proof (list algebra) + access-program correspondence", "§6 C06"),
 }
 
 def main():
